@@ -34,17 +34,17 @@ CHECKS = {
          "DESIGN.md section 3 C15; notes/report-C15.md"),
  "C05": ("exploration",
          "property-based testing over (run-time type, document) pairs with a reference interpreter as three-valued oracle (Must / MustErr / Free with patterns); documents generated from the type then perturbed at one node",
-         "Random type descriptions (depth <= 4, all serde shapes incl. the four enum variant kinds, structs with / without deny_unknown_fields) with documents generated from a value of the type (bare / mapping / tagged enum notations, block and flow, CRLF, comments) and one of 18 perturbations at a random node (null / scalar / sequence / mapping / variant in place, extra / missing / first-missing element, extra / missing entry, renamed key, second variant entry, sequence<->mapping, quoting): an accepted value must match the position-faithful pattern computed by the harness' interpreter over the document AST, a shape mismatch must be rejected, a matching document must be accepted; a bare payload-variant name must not take its payload from a sibling. Exploration (150 k pairs quick, 2 M thorough).",
+         "Random type descriptions (depth <= 4, all serde shapes incl. the four enum variant kinds, structs with / without deny_unknown_fields) with documents generated from a value of the type (bare / mapping / tagged enum notations, block and flow, CRLF, comments) and one of 18 perturbations at a random node (null / scalar / sequence / mapping / variant in place, extra / missing / first-missing element, extra / missing entry, renamed key, second variant entry, sequence<->mapping, quoting): an accepted value must match the position-faithful pattern computed by the harness' interpreter over the document AST, a shape mismatch must be rejected, a matching document must be accepted; a bare payload-variant name must not take its payload from a sibling; every document is also read through from_str / from_slice / from_reader (same outcome) and through the streaming entry points read / from_multiple (one document gives at most one item, the iterator ends after an error, the item is the reference outcome - surplus elements must not be left in the stream). Exploration (150 k pairs quick, 2 M thorough).",
          "trusts the reference interpreter (DESIGN.md Appendix A: every Must cites README / rustdoc, everything else is Free) and the document renderer (self-checked against the raw parser events); scalars are limited to three unambiguous lexical classes; one open finding (composite key mistaken for the explicit-empty-key case) is excluded by signature",
          "DESIGN.md section 3 C05, Appendix A"),
  "C20": ("exploration",
          "property-based testing with a harness-computed ground-truth tree: values of the C13 grammar decorated with presentation wrappers (exhaustive comment / block-string pools x positions x options + proptest decorations); oracle = same data as the undecorated value, typed and untyped",
-         "Every comment of an adversarial pool ('#', LF / CR / NEL / LS breaks, YAML syntax, quotes, NUL, tabs, long text) on every scalar kind in 4 positions, every block string of a pool (leading blanks, 0-3 trailing newlines, long words, tabs, controls) under LitStr / FoldStr in 4 positions, each x 11 option vectors x wrapper stacks, plus random decorations (FlowSeq, FlowMap, LitStr, FoldStr, Commented, SpaceAfter, nested) of random typed trees under random options: the output is one document, deserializes into the bare type as the original value and its untyped view equals the harness' ground truth (folded strings modulo one trailing line break); concrete wrapped types round-trip into the wrapped types (start-up check). Exploration.",
+         "Every comment of an adversarial pool ('#', LF / CR / NEL / LS breaks, YAML syntax, quotes, NUL, tabs, long text) on every scalar kind in 4 positions, every block string of a pool (leading blanks, 0-3 trailing newlines, long words, tabs, controls) under LitStr / FoldStr in 4 positions, LitStr / FoldStr strings below every chain of <= 3 (thorough 4) positions (sequence item, map value, struct field, variant payloads, tuple item, Some) x indent x compact, flow wrappers around values that are no collections, each x 11 option vectors x wrapper stacks, plus random decorations (FlowSeq, FlowMap, LitStr, FoldStr, Commented, SpaceAfter, nested) of random typed trees under random options: the output is one document, deserializes into the bare type as the original value and its untyped view equals the harness' ground truth (folded strings modulo one trailing line break); concrete wrapped types round-trip into the wrapped types (start-up check). Exploration.",
          "shapes covered by open C13 findings (empty_as_braces=false empties, composite keys, indent_step=1) are discarded and counted; five open wrapper findings are excluded by signature (FoldStr inner breaks - documented, LitStr/FoldStr without content - pinned by tests, SpaceAfter after literal - documented for LitStr, payload variants / composite keys inside FlowSeq/FlowMap)",
          "DESIGN.md section 3 C20"),
  "C06": ("exploration",
          "exhaustive finite product (token corpus x style x tag x target x 16 option vectors) + proptest numeric tokens + exhaustive short base64 strings; oracle = independent three-valued reference model (own big integer, Rust float parser, own strict base64 decoder)",
-         "Every cell of about 280 core tokens x 5 styles x 9 tags x 20 targets, 1242 (thorough 2616) width-boundary integer spellings in every radix x 20 targets, all 299593 base64 strings of length <= 6 over an 8-character alphabet, all byte arrays of length <= 2, random numeric-looking tokens and byte arrays; each case is evaluated under all 16 option vectors at the root and inside a sequence against a model that answers Must / MustErr / Free, plus a per-option metamorphic relation (an option changes acceptance only in the documented direction). Exhaustive over the stated finite product, exploration beyond.",
+         "Every cell of about 280 core tokens x 5 styles x 9 tags x 22 targets (incl. Vec<u8> and Option<Vec<u8>>, which are read through deserialize_seq), 1242 (thorough 2616) width-boundary integer spellings in every radix x 22 targets, all base64 strings of length <= 6 over a 9-character alphabet, all byte arrays of length <= 2, random numeric-looking tokens and byte arrays; each case is evaluated under all 16 option vectors at the root and inside a sequence against a model that answers Must / MustErr / Free, plus a per-option metamorphic relation (an option changes acceptance only in the documented direction). Exhaustive over the stated finite product, exploration beyond.",
          "trusts the reference model (each Must cites README / rustdoc; undocumented corners are Free) and Rust's str::parse as the IEEE oracle; the harness is built with the robotics feature compiled in (option off)",
          "DESIGN.md section 3 C06; notes/report-C06.md"),
  "C09": ("exploration",
@@ -64,7 +64,7 @@ CHECKS = {
          "DESIGN.md section 3 C17; notes/report-C17.md"),
  "C13": ("exploration",
          "property-based round trip over run-time type descriptions (proptest) + exhaustive small trees; oracle = one well-formed document and equality after a run-time-schema DeserializeSeed",
-         "A fixed family of all trees of depth <= 2 (thorough 3) with <= 2 children per node over 9 leaf kinds x 11 option vectors, plus random (type, value) pairs to depth 5 under random option vectors: every serde data-model shape (options, sequences, tuples, tuple structs, newtype structs, maps with scalar and composite keys, structs, the four enum variant kinds) in every parent position; the emitted text must be exactly one document and deserialize back to the same value through a seed that calls the same serde methods a derived type would call (self-checked against derived types). Exploration over the enumerated family and samples.",
+         "A fixed family of all trees of depth <= 2 (thorough 3) with <= 2 children per node over 9 leaf kinds x 11 option vectors, plus random (type, value) pairs to depth 5 under random option vectors: every serde data-model shape (options, sequences, tuples, tuple structs, newtype structs, maps with scalar and composite keys, structs, the four enum variant kinds) in every parent position, plus a block-scalar string below every chain of <= 4 (thorough 5) positions (sequence item, map value, struct field, newtype / struct / tuple variant payload, tuple item, Some) x indent {2,3,4,8} x compact x wrap; every value is serialised twice, with and without announced collection lengths (serialize_seq(None) / serialize_map(None)); the emitted text must be exactly one document and deserialize back to the same value through a seed that calls the same serde methods a derived type would call (self-checked against derived types). Exploration over the enumerated family and samples.",
          "four open findings exclude: empty collections under empty_as_braces=false, composite keys with block bodies / under non-default indentation, composite keys mistaken for the explicit-empty-key special case, and indent_step=1 nesting; Option<T> only for T without a null-like encoding",
          "DESIGN.md section 3 C13"),
  "C08": ("exploration",
@@ -89,7 +89,7 @@ CHECKS = {
          "DESIGN.md section 3 C11"),
  "C04": ("exploration",
          "metamorphic + reference-model property-based testing: each generated mapping is run under all three policies and compared with the harness' de-duplicated renderings and ground-truth key positions; exhaustive small mappings + proptest",
-         "All mappings with <= 4 entries over 2 key identities x 3 key kinds (scalar, sequence, mapping) x 3 value shapes (up to 3-level containers) at 3 nesting positions in block and flow layout, plus random mappings with quoted/tagged/aliased keys and aliased values. Error policy: DuplicateMappingKey at the renderer's ground-truth position of the second occurrence; FirstWins == document with later entries deleted; LastWins delivers every entry in order / overwriting map == earlier entries deleted; no repeats => all policies agree. Exploration: no counterexample in the enumerated and sampled space.",
+         "All mappings with <= 4 entries over 2 key identities x 3 key kinds (scalar, sequence, mapping) x 3 value shapes (up to 3-level containers) at 3 nesting positions in block and flow layout, plus random mappings with quoted / core-tagged / application-tagged (two tags, scalar and sequence keys) / aliased / null and empty-string keys (an omitted node with an anchor is the null key) and aliased values, and mappings consumed as merge sources that repeat keys among their own entries (in place, through an alias, inside a merge sequence, below a nested merge). Error policy: DuplicateMappingKey at the renderer's ground-truth position of the second occurrence; FirstWins == document with later entries deleted; LastWins delivers every entry in order / overwriting map == earlier entries deleted; no repeats => all policies agree. Exploration: no counterexample in the enumerated and sampled space.",
          "trusts the harness' same_key rule (structure, scalar text, tag; style ignored - the property's wording), renderer positions (self-checked against the raw parser events) and de-duplication; locations are not judged for aliased keys / replayed content",
          "DESIGN.md section 3 C04"),
  "C03": ("exploration",
